@@ -35,21 +35,16 @@ Proof.
 Qed.
 
 Lemma ends_nl_cons c f : f <> [] -> ends_nl (c :: f) = ends_nl f.
-Proof.
-  intro Hne. unfold ends_nl. cbn [rev].
-  destruct (rev f) as [|x r] eqn:E.
-  - apply (f_equal (@rev N)) in E. rewrite rev_involutive in E. contradiction.
-  - reflexivity.
-Qed.
+Proof. intro Hne. destruct f as [|d f]; [contradiction|reflexivity]. Qed.
 
 (* the central fact about the fixed writer: appending sep ++ l [++ newline] to ANY file adds
    exactly the line l and leaves every earlier line as it was *)
 Lemma lines_snoc f l : no_nl l = true -> lines (f ++ sep f ++ l ++ [10]) = lines f ++ [l].
 Proof.
   intro Hl. induction f as [|c f IH].
-  - cbn [sep ends_nl rev app]. rewrite lines_app_nl by assumption. reflexivity.
+  - cbn [sep ends_nl app]. rewrite lines_app_nl by assumption. reflexivity.
   - destruct f as [|d f].
-    + unfold sep, ends_nl. cbn [rev app]. destruct (c =? 10) eqn:Ec.
+    + unfold sep. cbn [ends_nl app]. destruct (c =? 10) eqn:Ec.
       * cbn [app lines]. rewrite Ec. rewrite lines_app_nl by assumption. reflexivity.
       * cbn [app lines]. rewrite Ec. cbn [N.eqb]. rewrite lines_app_nl by assumption.
         reflexivity.
@@ -65,9 +60,9 @@ Qed.
 Lemma lines_snoc_open f l : no_nl l = true -> l <> [] -> lines (f ++ sep f ++ l) = lines f ++ [l].
 Proof.
   intros Hl Hne. induction f as [|c f IH].
-  - cbn [sep ends_nl rev app]. apply lines_no_nl; assumption.
+  - cbn [sep ends_nl app]. apply lines_no_nl; assumption.
   - destruct f as [|d f].
-    + unfold sep, ends_nl. cbn [rev app]. destruct (c =? 10) eqn:Ec.
+    + unfold sep. cbn [ends_nl app]. destruct (c =? 10) eqn:Ec.
       * cbn [app lines]. rewrite Ec. rewrite lines_no_nl by assumption. reflexivity.
       * cbn [app lines]. rewrite Ec. cbn [N.eqb]. rewrite lines_no_nl by assumption.
         reflexivity.
@@ -84,7 +79,7 @@ Lemma lines_sep f : lines (f ++ sep f) = lines f.
 Proof.
   induction f as [|c f IH]; [reflexivity|].
   destruct f as [|d f].
-  - unfold sep, ends_nl. cbn [rev app]. destruct (c =? 10) eqn:Ec.
+  - unfold sep. cbn [ends_nl app]. destruct (c =? 10) eqn:Ec.
     + reflexivity.
     + cbn [app lines]. rewrite Ec. reflexivity.
   - unfold sep in *. rewrite ends_nl_cons by discriminate.
